@@ -247,11 +247,17 @@ impl<M: GuestAddressSpace> VringState<M> {
 
     /// Read event from the kick `EventFd`.
     fn read_kick(&self) -> io::Result<bool> {
+        // A kick that is not going to be processed must stay pending: the worker may have been
+        // woken just before the ring was disabled, and consuming the kick here would lose it.
+        if !self.enabled {
+            return Ok(false);
+        }
+
         if let Some(kick) = &self.kick {
             kick.consume()?;
         }
 
-        Ok(self.enabled)
+        Ok(true)
     }
 
     /// Set `EventFd` for call.
